@@ -11,6 +11,9 @@ def run(tier):
     thorough = tier == "thorough"
     ops = {"AV", "GC", "AS", "GS"}
 
+    # 0. (in the background) Apalache: the inductive invariant of the add_version CAS skeleton
+    apa = cas_inductive_start(wd, thorough)
+
     # 1. all interleavings at single-request grain
     cmc(v, wd, "2c-3ops", cconsts(Ops={"AV", "GC"}, MaxOps=3), invs=INV9)
     cmc(v, wd, "2c-3ops-snapshots", cconsts(Ops=ops, MaxOps=3, MaxVer=3), invs=INV9, timeout=1200)
@@ -62,6 +65,7 @@ def run(tier):
 
     # the clients' own start: creating / reading the salt object concurrently
     salt_race(v, wd, thorough)
+    cas_inductive_finish(v, wd, apa, thorough)
 
     v.finish("model_checking",
              rule="TLC explores every interleaving of the individual get/put/del/cas/list "
@@ -71,7 +75,12 @@ def run(tier):
                   "object store on real CloudServer instances and every request, reply and "
                   "return value is validated against CloudStore with OneChildPerParent, "
                   "AckedOnChain, ReadsOnChain evaluated on every state; afterwards every client "
-                  "walks the chain; distinct = distinct interleavings",
+                  "walks the chain; distinct = distinct interleavings.  Independently, Apalache "
+                  "proves an inductive invariant of the add_version skeleton (read latest, put, "
+                  "CAS, delete own object, crash anywhere; spec/CasInd.tla) that implies "
+                  "OneChildPerParent, a single chain ending at latest, committed versions "
+                  "stored, and soundness of get_child_version's choice rule, for any number of "
+                  "steps (3 clients, 5 ids)",
              assumptions=["listings are atomic requests in most families and sequences of "
                           "one-name pages in the *paged* ones; "
                           "the Service contract (atomic per-object operations, CAS) is what the "
